@@ -242,6 +242,11 @@ let run_line (line : string) =
   | t :: _ when String.length t > 0 && t.[0] = '#' -> ()
   | ["tx_begin"] -> tx_snap := Some !store; ttx_snap := Some !tstore
   | ["tx_commit"] -> tx_snap := None; ttx_snap := None
+  | ["nocount"] ->
+      (* the pending batch in the legacy layout without a request counter *)
+      incr step;
+      (match !store with Some s -> store := Some (M.c_legacy_uncounted s) | None -> ());
+      emit "res ok"; dump_store ()
   | ["tx_abort"] ->
       (match !tx_snap with Some s -> store := s; tx_snap := None | None -> ());
       (match !ttx_snap with Some s -> tstore := s; ttx_snap := None | None -> ());
